@@ -521,6 +521,23 @@ def judge_merge_all_criteria(ctx, res, case):
                     runs_of_merge=want, runs_of_merge_all=have, new_rows=new, relations_of_new_rows=rels_new)
 
 
+def check_large_merge_all(ctx, res):
+    """merge_all on a database of more than a thousand features of one featuretype (runs of 1-4 overlapping features all
+    along one sequence), with and without exclude_components: judged like every other merge_all case"""
+    import gen_db
+    r = ctx.rng("c16", "large merge_all")
+    lines, pos = [], 1
+    for k in range(1100 if not ctx.thorough else 2500):
+        ln = r.randrange(5, 30)
+        lines.append(gen_db.gff_line("chr1", "exon", pos, pos + ln, "+", [("ID", ["L%d" % k])]))
+        pos += r.choice([3, ln, ln + 1, ln + 2, ln + 40])          # overlapping / abutting / one base apart / far
+    for exclude in (False, True):
+        judge_merge_all(ctx, res, {"scenario": "merge_all", "input": lines, "exclude_components": exclude, "no_shrink": True,
+                                   "large": True})
+        res.evaluations += 1
+        res.count("merge_all_on_%d_features" % len(lines))
+
+
 def judge(ctx, case):
     res = common.Result("C16")
     if case.get("scenario") == "children_bp":
@@ -888,6 +905,7 @@ def run(ctx):
                                             {"lines": lines2, "groups": groups, "exclude_components": exclude,
                                              "new": sorted(new), "remaining": sorted(after),
                                              "expected_runs": [(a, b, m_) for a, b, m_ in exp_runs]}))
+    check_large_merge_all(ctx, res)
     dout = ctx.model(dcmds) if dcmds else None
     if dout is not None:
         for c, m, e, (comp, inpx) in zip(dcmds, dout, dexp, dtags):
